@@ -5,6 +5,7 @@ import (
 	"context"
 	"fmt"
 	"io"
+	"strings"
 	"sync"
 	"testing"
 	"testing/synctest"
@@ -105,6 +106,11 @@ func (t tapTransport) Send(ctx context.Context, msgType uint8, msg any, sess kex
 	return rt, r, nil
 }
 
+// values that only ever travel inside the tunnel; none of them may show up in
+// any clear-text byte on the wire (error messages included)
+var c05Devmod = serviceinfo.Devmod{Os: "CANARY-os-7f3a", Arch: "CANARY-arch-91c2", Version: "CANARY-ver-55d0", Device: "CANARY-dev-0b7e", FileSep: ";", Bin: "CANARY-bin-3c11"}
+var c05Canaries = [][]byte{[]byte("CANARY-"), []byte("owner-secret-configuration"), []byte("Z9Z9Z9Z9Z9Z9Z9Z9")}
+
 var c05Downgrades = []string{
 	"strip-mac", "strip-mac-flip", "swap-tag", "drop-iv", "short-iv", "long-iv", "empty-iv", "iv-text",
 	"alter-alg", "alg-to-other-map", "drop-alg", "empty-ct", "trunc-ct", "one-byte-ct", "null-ct", "ext-ct",
@@ -182,6 +188,17 @@ func (p *c05) Prepare(t *testing.T, tier string, seed uint64) {
 			})
 			restore()
 			plans = append(plans, base)
+			// one failing call of the owner's state backend during TO2 (quick: three
+			// tunnels, first and second call of each method)
+			if tier == "thorough" || ti%14 == 1 {
+				for _, m := range c03Methods {
+					for nth := 1; nth <= 2; nth++ {
+						pl := base
+						pl.Fault, pl.Dir, pl.Index = "store-error:"+m, "owner", nth
+						plans = append(plans, pl)
+					}
+				}
+			}
 			for _, dir := range []string{"d2o", "o2d"} {
 				n := len(bl.lens[dir])
 				for idx := 0; idx < n; idx++ {
@@ -477,7 +494,7 @@ func c05Run(env *Env, pl *C05Plan, base *c05Base) {
 	mon := NewTunnelMonitor(spec)
 	s.Net.AddHook(mon.Hook)
 	opts := func(devName string) TO2Opts {
-		return TO2Opts{Kex: kex.Suite(pl.Kex), Cipher: spec.ID, AllowReuse: true,
+		return TO2Opts{Kex: kex.Suite(pl.Kex), Cipher: spec.ID, AllowReuse: true, Devmod: &c05Devmod,
 			Modules:   map[string]serviceinfo.DeviceModule{"ping": &PongDevice{Mod: "ping", Rec: rec}},
 			Transport: tapTransport{s.Transport(devName, "owner1"), tap}}
 	}
@@ -590,7 +607,31 @@ func c05Run(env *Env, pl *C05Plan, base *c05Base) {
 		tampered = true
 	})
 
+	storeMethod := strings.TrimPrefix(pl.Fault, "store-error:")
+	if storeMethod != pl.Fault && o1.Sim != nil {
+		o1.Sim.FailAt[storeMethod] = o1.Sim.Calls[storeMethod] + pl.Index
+	}
 	_, terr := s.TO2(ctx, d1, "owner1", nil, opts("dev1"))
+	if storeMethod != pl.Fault && o1.Sim != nil {
+		if o1.Sim.Calls[storeMethod] >= o1.Sim.FailAt[storeMethod] {
+			tampered = true
+			o.Fault("store-error")
+		}
+		delete(o1.Sim.FailAt, storeMethod)
+	}
+
+	// values that exist only inside the tunnel never appear in a clear-text byte
+	// on the wire, whatever failed (error messages are sent unencrypted)
+	if pl.Fault != "plaintext" {
+		for _, ev := range s.Net.Log {
+			for _, c := range c05Canaries {
+				if bytes.Contains(ev.Body, c) {
+					o.Class = "SECRET-ON-WIRE"
+					o.Violate("C05", "tunnel-content-in-cleartext", fmt.Sprintf("%s|%d/%d", strings.SplitN(pl.Fault, ":", 2)[0], ev.MsgType, ev.RespType), "wire message %s %d/%d carries %q, a value that was only ever sent inside the tunnel (fault %s)", ev.Phase, ev.MsgType, ev.RespType, c, pl.Fault)
+				}
+			}
+		}
+	}
 
 	// plaintexts must never be visible on the wire
 	tap.mu.Lock()
@@ -630,6 +671,13 @@ func c05Run(env *Env, pl *C05Plan, base *c05Base) {
 		return
 	}
 	o.Nontrivial = true
+	if storeMethod != pl.Fault {
+		if o.Class == "" {
+			o.Class = "store-error-no-leak"
+		}
+		o.Sample = map[string]any{"fault": pl.Fault, "nth": pl.Index, "to2_err": fmt.Sprint(terr)}
+		return
+	}
 	// what did the receiver of the tampered message obtain?
 	dir, idx := pl.Dir, pl.Index
 	got := idx < len(recv[dir])
